@@ -12,9 +12,9 @@ import (
 	"strconv"
 	"testing"
 
+	epb "github.com/google/gce-tcb-verifier/proto/endorsement"
 	"github.com/google/gce-tcb-verifier/sev"
 	"github.com/google/gce-tcb-verifier/testing/fakeovmf"
-	epb "github.com/google/gce-tcb-verifier/proto/endorsement"
 	sgpb "github.com/google/go-sev-guest/proto/sevsnp"
 	"pgregory.net/rapid"
 
